@@ -421,6 +421,34 @@ func c13Doc(doc string) string {
 		x, ierr := n.Interface()
 		fmt.Fprintf(&sb, "get%v=%s/%v/%s;", path, h64(raw), ierr != nil, h64(fmt.Sprint(x)))
 	}
+	// the non-validating lazy entries: children and skipped siblings go through the native fast
+	// skipper, whose verdict (error kind and position) on malformed text is part of the result
+	for _, path := range [][]interface{}{nil, {"a"}, {0}, {"k", 1}, {"want"}, {2}} {
+		n, err := sonic.GetWithOptions(data, ast.SearchOptions{ValidateJSON: false}, path...)
+		if err != nil {
+			fmt.Fprintf(&sb, "lget%v=%s;", path, trunc(err.Error(), 60))
+			continue
+		}
+		raw, _ := n.Raw()
+		lerr := n.LoadAll()
+		js, merr := n.MarshalJSON()
+		fmt.Fprintf(&sb, "lget%v=%s/%s/%s/%s;", path, h64(raw), trunc(errStr(lerr), 60), trunc(errStr(merr), 60), h64(string(js)))
+	}
+	{
+		pn, perr := ast.NewParser(doc).Parse()
+		fmt.Fprintf(&sb, "parse=%d;", int(perr))
+		if perr == 0 {
+			var parts []string
+			pn.ForEach(func(p ast.Sequence, n *ast.Node) bool {
+				r, e := n.Raw()
+				parts = append(parts, h64(r)+trunc(errStr(e), 60))
+				return len(parts) < 64
+			})
+			lerr := pn.LoadAll()
+			js, merr := pn.MarshalJSON()
+			fmt.Fprintf(&sb, "parsed=%s/%s/%s/%s;", h64(strings.Join(parts, ",")), trunc(errStr(lerr), 60), trunc(errStr(merr), 60), h64(string(js)))
+		}
+	}
 	nd := ast.NewRaw(doc)
 	fmt.Fprintf(&sb, "newraw=%v;", nd.Check() == nil)
 	if nd.Check() == nil {
